@@ -529,6 +529,19 @@ def run_imap_large(case, ctx, teneva):
         ctx.check('imap-narrow-dtype', _is_int_array(Fn, (m, d * q))
             and Fn.tolist() == Bl, lambda: f'ind_tt_to_qtt wrong for indices '
             f'of dtype {np.dtype(dt).name}, n=2^{q}')
+    # two batches of the same shape converted one after the other: the first
+    # result is still the image of the first batch (no shared output buffer)
+    Il2 = [[int(rng.integers(0, n)) for _ in range(d)] for _ in range(m)]
+    F_a = teneva.ind_tt_to_qtt(np.array(Il, dtype=np.int64), n)
+    keep = np.array(F_a, copy=True)
+    F_b = teneva.ind_tt_to_qtt(np.array(Il2, dtype=np.int64), n)
+    T_a = teneva.ind_qtt_to_tt(np.array(Bl, dtype=np.int64), q)
+    keep_t = np.array(T_a, copy=True)
+    teneva.ind_qtt_to_tt(np.array(bits_py(Il2, q), dtype=np.int64), q)
+    ctx.check('imap-batch-vs-row', np.array_equal(F_a, keep) and
+        np.array_equal(T_a, keep_t) and F_b.tolist() == bits_py(Il2, q),
+        f'a second conversion of a batch of the same shape (q={q}, d={d}) '
+        'changed the array returned by the first one')
     ctx.event('imap-sampled-large-q')
 
 
